@@ -75,6 +75,35 @@ pub fn plain<G: CurveGroup>(c: &Ctx<G>, t: &mut Tape<'_>, o: &mut Obs) -> R {
     Ok(())
 }
 
+/// The affine entry points on points of the *whole* curve, for the curves whose projective multiplication is overridden
+/// by an endomorphism method that is only valid on the prime-order subgroup: `Affine::mul_bigint`, `Affine * k` and
+/// `Config::mul_affine` are what the library itself applies to untrusted points (subgroup test, cofactor clearing), so
+/// they must compute k*P for every point of the curve.
+pub fn affine_whole<G: CurveGroup>(c: &Ctx<G>, t: &mut Tape<'_>, o: &mut Obs) -> R {
+    let (p, pc) = (c.pts)(t, true);
+    let (limbs, lc) = gen_limbs(t, &c.r, c.n);
+    let k = big(&limbs);
+    let aff = p.into_affine();
+    o.show(|| format!("{}: P={} [{}] limbs={:x?} [{}] (affine entry points, whole curve)", c.name, aff, pc, limbs, lc));
+    o.class(pc);
+    o.class(lc);
+    o.nt(!p.is_zero() && nontrivial_scalar(&k, &c.r));
+    o.evals(2);
+    let want = ref_mul(&p, &k);
+    let cx = || format!("P={} limbs={:x?}", aff, limbs);
+    let got = no_panic("mul_bigint.affine", || aff.mul_bigint(&limbs))?;
+    same(&got, &want, "whole.mul_bigint.affine", &cx)?;
+    if k < c.r && limbs.len() == c.n {
+        let s = G::ScalarField::from(k.clone());
+        let got: G = no_panic("mul.affine", || aff * s)?;
+        same(&got, &want, "whole.mul.affine", &cx)?;
+        let got: G = no_panic("mul.affine.ref", || aff * &s)?;
+        same(&got, &want, "whole.mul.affine.ref", &cx)?;
+        o.evals(2);
+    }
+    Ok(())
+}
+
 /// windowed NAF: fresh table, explicit table, table longer than needed, table too short.
 pub fn wnaf<G: CurveGroup>(c: &Ctx<G>, wmax: u64, t: &mut Tape<'_>, o: &mut Obs) -> R {
     let (p, pc) = (c.pts)(t, false);
